@@ -795,6 +795,10 @@ def check_C31(res):
     q = res.tier == "quick"
     run_mc(res, "MC_Reload/fixed", "MCR.tla", "MCR_fixed.cfg" if q else "MCR_deep.cfg", workers=4)
     run_mc(res, "MC_Reload/as_found (previous entry by longest match)", "MCR.tla", "MCR_as_found.cfg", workers=2, expect_violation="ExactlyConfigured")
+    if not q:
+        # the composition: operator edits, non-atomic file reads of a reload, one atomic install, handlers with one snapshot
+        run_mc(res, "MC_System/impl", "MC_System.tla", "MC_System.cfg", workers=8, must_cover=False)
+        run_mc(res, "MC_System/mutant (zone from the snapshot, data from the installed catalog)", "MC_System.tla", "MC_System_mutant.cfg", workers=4, expect_violation="Linearizable")
     daemon = build_daemon()
     path = tr(f"C31-reload-{res.seed}.ndjson")
     scratch = os.path.join(OUT, "reload")
